@@ -97,7 +97,16 @@ def run(cx):
         G.guard(cx, 'G-EXTRACT-ZERO', inst, fn, P, sinks, lambda p, t1=t1: p.kind == 'is_zero' and cn.c(p.args[0]) == t1, False,
                 'extraction fails (None) exactly when H1 + k = 0 mod N')
         nones = G.ok_sinks(fn, ('Option::None',))
-        cx.add('G-EXTRACT-ZERO', inst + '/none', len(nones) == 1, 'a single None exit (the zero case)', fn.loc())
+        # `helper(..)?` returns the helper's None through from_residual
+        nones += [b_ for (b_, i_) in G.ret_def_sites(fn) if i_ == -1 and fn.blocks[b_]['term']['fn'].get('k') == 'def' and last(fn.blocks[b_]['term']['fn']['name']) == 'from_residual']
+        # failure only in the zero case: every None exit lies behind the edge on which H1 + k was found to be zero
+        zero_edges = []
+        for b_, p_, te_, fe_ in G.bool_switches(fn, P):
+            if p_.kind == 'is_zero' and cn.c(p_.args[0]) == t1:
+                zero_edges += fe_ if p_.neg else te_
+        left_n = G.reachable_without(fn, nones, zero_edges) if nones else []
+        cx.add('G-EXTRACT-ZERO', inst + '/none', bool(nones) and bool(zero_edges) and not left_n,
+               'None is returned only in the zero case (None exits bb%s, reachable without the zero observation: bb%s)' % (nones, left_n), fn.loc())
     n = 0
     for qual, hid in HID_SITES:
         fn = cx.fn(qual, 'K-HID')
